@@ -153,7 +153,7 @@ func (backupManager *BackupManager) StoreLastID() error {
 }
 
 func (backupManager *BackupManager) LoadLastID() (uint64, error) {
-	lastIDFilename := backupManager.backupLocation + string(os.PathSeparator) + "datahub-backupManager.lastseen"
+	lastIDFilename := backupManager.backupLocation + string(os.PathSeparator) + "datahub-backup.lastseen"
 	file, err := os.Open(lastIDFilename)
 	if err != nil {
 		return 0, nil
